@@ -336,3 +336,114 @@ def forward_rule(run, rid, p, pairs, text):
                                                                  '; it accepts %s too but does not pass %s on' % (miss, 'it' if len(miss) == 1 else 'them')),
                    fn=g, node=c)
     return n
+
+
+# ---------------------------------------------------------------------------------------------
+# file-extension dispatch: every test of a file name's extension against a lower-case literal is
+# made on the lower-cased extension (siblings: load_df, load_metadata, load_serialized_dataframe)
+
+def _has_lower(e):
+    return any(isinstance(x, ast.Call) and isinstance(x.func, ast.Attribute) and x.func.attr in ('lower', 'casefold')
+               for x in ast.walk(e))
+
+
+def _is_splitext(e):
+    return any(isinstance(x, ast.Call) and norm(x.func).endswith('splitext') for x in ast.walk(e))
+
+
+def _lits(e):
+    """String literals of a comparison operand (a constant or a tuple/list/set of constants), or None."""
+    if isinstance(e, ast.Constant) and isinstance(e.value, str):
+        return [e.value]
+    if isinstance(e, (ast.Tuple, ast.List, ast.Set)) and e.elts and \
+            all(isinstance(x, ast.Constant) and isinstance(x.value, str) for x in e.elts):
+        return [x.value for x in e.elts]
+    return None
+
+
+def ext_summary(p, funcs):
+    """Functions that return a file extension: qn -> True when it is lower-cased before being returned."""
+    out = {}
+    for f in funcs:
+        binds = _ext_bindings(p, f, {})
+        for x in p.own_nodes(f):
+            if isinstance(x, ast.Return) and x.value is not None:
+                st = _ext_state(x.value, binds, x.lineno)
+                if st is not None:
+                    out[f.qn] = min(out.get(f.qn, True), st)
+    return out
+
+
+def _ext_bindings(p, f, helpers):
+    """name -> sorted [(lineno, lowered)] for names bound to (a piece of) a file extension."""
+    b = {}
+    nodes = sorted((x for x in p.own_nodes(f) if isinstance(x, ast.Assign)), key=lambda x: x.lineno)
+    for x in nodes:
+        for t in x.targets:
+            pairs = []
+            if isinstance(t, (ast.Tuple, ast.List)) and isinstance(x.value, (ast.Tuple, ast.List)) and \
+                    len(t.elts) == len(x.value.elts):
+                pairs = list(zip(t.elts, x.value.elts))
+            elif isinstance(t, (ast.Tuple, ast.List)) and len(t.elts) == 2 and isinstance(x.value, ast.Call) and \
+                    norm(x.value.func).endswith('splitext'):
+                if isinstance(t.elts[1], ast.Name):
+                    b.setdefault(t.elts[1].id, []).append((x.lineno, False))
+                continue
+            elif isinstance(t, ast.Name):
+                pairs = [(t, x.value)]
+            for tt, vv in pairs:
+                if not isinstance(tt, ast.Name):
+                    continue
+                st = _ext_state(vv, b, x.lineno, helpers, strict_before=True)
+                if st is not None:
+                    b.setdefault(tt.id, []).append((x.lineno, st))
+    return b
+
+
+def _ext_state(e, binds, lineno, helpers=None, strict_before=False):
+    """None when e is not extension-derived; else whether it is lower-cased."""
+    helpers = helpers or {}
+    low = _has_lower(e)
+    for x in ast.walk(e):
+        if isinstance(x, ast.Subscript) and _is_splitext(x.value) and isinstance(x.slice, ast.Constant) and x.slice.value in (1, -1):
+            return low
+        if isinstance(x, ast.Call):
+            q = helpers.get(norm(x.func).split('.')[-1])
+            if q is not None:
+                return low or q
+        if isinstance(x, ast.Name) and x.id in binds:
+            prior = [s for ln, s in binds[x.id] if (ln < lineno if strict_before else ln <= lineno)]
+            if prior:
+                return low or prior[-1]
+    return None
+
+
+def extcase_rule(run, rid, p, funcs, text, triage_tbl=None):
+    """Every comparison of an extension-derived value with lower-case literals happens on a lower-cased value."""
+    run.rule(rid, text)
+    triage_tbl = triage_tbl or {}
+    hs = ext_summary(p, list(p.funcs.values()))
+    helpers = {q.split('.')[-1]: v for q, v in hs.items()}
+    n = 0
+    for f in funcs:
+        binds = _ext_bindings(p, f, helpers)
+        for x in p.own_nodes(f):
+            if not isinstance(x, ast.Compare) or len(x.ops) != 1 or \
+                    not isinstance(x.ops[0], (ast.Eq, ast.NotEq, ast.In, ast.NotIn)):
+                continue
+            for a, bb in ((x.left, x.comparators[0]), (x.comparators[0], x.left)):
+                lits = _lits(bb)
+                if lits is None or not any(c.isalpha() for s in lits for c in s):
+                    continue
+                st = _ext_state(a, binds, x.lineno, helpers)
+                if st is None:
+                    continue
+                n += 1
+                key = '%s::%s::%s' % (f.rel, f.short, norm(x))
+                if not st and key in triage_tbl:
+                    run.note(rid, 'case-sensitive by design: %s (%s)' % (key, triage_tbl[key]), fn=f, node=x)
+                    continue
+                run.ob(rid, key, st, 'extension test %s is made on %s' % (
+                    norm(x)[:70], 'the lower-cased extension' if st else 'the extension as spelled in the file name, so '
+                    'X.%s is not recognised' % (lits[0].lstrip('.').upper())), fn=f, node=x)
+    return n
